@@ -11,12 +11,16 @@ import vlib
 from props.common import corpus_check
 
 
+DUMP_DEPTH = 8      # the tree is dumped down to this depth (aliases can make it cyclic)
+QUERY_DEPTH = 5     # queries start from nodes up to this depth, so that ".__init__" and ".missing_member" stay inside the dump
+
+
 def dump_tree(node, depth: int = 0):
     """the tree the parser walks: griffe's modules/classes/functions/attributes views contain inherited and imported members
     as aliases; resolvable ones are part of the tree (an inherited __init__ is found by the lookup), others are left out"""
     kind = "module" if node.is_module else "class" if node.is_class else "function" if node.is_function else "attribute"
     members = []
-    if depth < 6:
+    if depth < DUMP_DEPTH:
         for coll in (node.modules, node.classes, node.functions, node.attributes):
             for m in coll.values():
                 if getattr(m, "is_alias", False):
@@ -24,19 +28,20 @@ def dump_tree(node, depth: int = 0):
                         m.final_target  # noqa: B018
                     except Exception:  # noqa: BLE001
                         continue
-                    if depth >= 5:
+                    if depth >= DUMP_DEPTH - 1:
                         continue
                 members.append(dump_tree(m, depth + 1))
     doc = node.docstring.value if node.docstring is not None else None
     return [node.name, kind, vlib.opt(doc), members]
 
 
-def all_qnames(tree, prefix=""):
+def all_qnames(tree, prefix="", depth=0):
     name, kind, doc, members = tree
     q = f"{prefix}.{name}" if prefix else name
     out = [(q, kind)]
-    for m in members:
-        out += all_qnames(m, q)
+    if depth < QUERY_DEPTH:
+        for m in members:
+            out += all_qnames(m, q, depth + 1)
     return out
 
 
